@@ -52,10 +52,10 @@ func c06World(t *testing.T, p c06Params) rt.Result {
 		// a plugin that needs 300 ms in OnEstablished (a third of the worlds): the hold
 		// timer runs on meanwhile; a KEEPALIVE that falls due in that time is that late
 		estDelay := time.Duration(0)
-		if p.Seed%3 == 2 {
+		if mix(p.Seed)%3 == 2 {
 			estDelay = 300 * time.Millisecond
 		}
-		if p.Seed%3 == 1 {
+		if mix(p.Seed)%3 == 1 {
 			// a plugin that takes half a second to clean up: the connection is closed when
 			// the hold timer expires, not when the plugin is done
 			ps.Cfg.OnCloseFn = func(*hz.Session) { time.Sleep(500 * time.Millisecond) }
@@ -63,7 +63,7 @@ func c06World(t *testing.T, p c06Params) rt.Result {
 		// a slow socket in a fifth of the worlds: three writes in ten take 200 ms to take
 		// effect (while the session is up); what is measured then is allowed that much more
 		stall := time.Duration(0)
-		if p.Seed%5 == 2 {
+		if mix(p.Seed)%5 == 2 {
 			stall = 200 * time.Millisecond
 		}
 		// up to three delays add up before a hold-timer expiry is on the wire: the last message
